@@ -1597,6 +1597,9 @@ func (p *Peer) setNextAddrFromErr(err error, req *Request, source []string) {
 		}
 		// clear existing data from memory
 		p.peerState.Set(PeerStatusDown)
+		if data := p.data.Load(); data != nil {
+			data.dropped.Store(true)
+		}
 		p.data.Store(nil)
 	}
 
@@ -2442,6 +2445,9 @@ func (p *Peer) setBroken(details string) {
 	p.peerState.Set(PeerStatusBroken)
 	p.lastError.Set("broken: " + details)
 	p.thrukVersion.Set(-1)
+	if data := p.data.Load(); data != nil {
+		data.dropped.Store(true)
+	}
 	p.data.Store(nil)
 }
 
